@@ -92,7 +92,7 @@ func runRoute(c *core.Ctx, r *rec, idx int) {
 		r: r, g: &Gen{r: c.Rand(fmt.Sprintf("route-%d", idx)), uid: 1_000_000_000 + int64(idx)*10_000_000},
 		fb: flatbuffers.NewBuilder(2048), dec: newStorageDecoder(), pool: map[*metric.BrokerBatchRows]*poolInfo{},
 	}
-	nScen := c.Pick(10, 30)
+	nScen := c.Pick(8, 120)
 	for s := 0; s < nScen; s++ {
 		rc.runScenario(fmt.Sprintf("route-%d/%d", idx, s), c.Pick(36, 70))
 	}
@@ -168,6 +168,10 @@ func (rc *routeCtx) runScenario(id string, nBatches int) {
 	// the real channel stack with recording streams
 	cfg := config.NewDefaultBrokerBase()
 	cfg.Write.BatchBlockSize = ltoml.Size(sc.BlockSize)
+	// No time driven flushes: chunks leave a family channel when they are full or when the channel is stopped.
+	// (Besides determinism this avoids a shutdown race of lindb that is outside this property: familyChannel.Stop closes
+	// fc.ch while the write task's ticker branch may still call checkFlush -> flushChunk -> "send on closed channel".)
+	cfg.Write.BatchTimeout = ltoml.Duration(time.Hour)
 	config.SetGlobalBrokerConfig(cfg)
 	recd := &recorder{}
 	sm := &fakeStateMgr{}
